@@ -146,7 +146,8 @@ def floor_gap(c):
 ASSUMPTIONS = [
     "RNG draws are universally quantified: exponential draws xi_j are arbitrary reals (>= 0 used only in the gap lemma), Bernoulli draws arbitrary booleans constrained only by p = 0 => never, p >= 1 => always",
     "A1 real arithmetic: refrac/dt exact (the IEEE behaviour of refrac // dt or refrac / dt for non-representable dt is exercised by the bounded stand-in with dt = 0.1)",
-    "NOT proved (bounded over seeds only): the whole offline raster of the REFRACTORY encoder (cumsum + scatter over a symbolic number of bins; its intervals and the gap lemma are proved), reproducibility beyond generator forwarding (torch RNG determinism is trusted)",
+    "NOT proved (bounded over seeds only): reproducibility beyond generator forwarding (torch RNG determinism is trusted)",
+    "offline refractory encoder, whole raster for any number of steps: cumsum is an uninterpreted prefix sum; after the solver has proved every interval >= rho at a fresh index, the instances of lean/ClosedForms.lean prefix_sum_gap / prefix_sum_lower at the two scatter witnesses are assumed (S(w2) - S(w1) >= (w2 - w1) rho, S(w) >= (w + 1) rho); scatter_ as for the Poisson-interval encoder",
     "offline Poisson-interval encoder, zero silence for any number of steps: cumsum is an uninterpreted prefix sum that is 0 for an identically-zero summand (the solver proves the summand is zero at a fresh index), scatter_ is 'row written => some bin carries that index' with a Skolem witness; masked row indexing res[:, mask] is the arbitrary selected element",
     "online generators: for any number of steps by loop contracts (one arbitrary iteration of the real body + invariant; lean invariant_fold is the induction); the [steps<=3] contracts are kept as unrolled cross-checks of the loop-contract machinery",
 ]
@@ -646,4 +647,94 @@ MUTANTS += [
     dict(file=EN, func="poisson_interval", old="        res = res[1:-1]", new="        res = res[:-2]", contracts=[OFF], name="seed C19e: row 0 (where silent elements land) kept, last real row dropped"),
     dict(file=EN, func="poisson_interval", old="        inputs[~mask] = 0\n\n        # convert rates into intervals via sampling\n        res = torch.poisson(", new="        # convert rates into intervals via sampling\n        res = torch.poisson(", contracts=[OFF], name="offline: zero-intensity elements keep an infinite expected interval instead of 0"),
     dict(file=EN, func="poisson_interval", old="            inputs.expand(steps + 2, *inputs.shape), generator=generator", new="            inputs.expand(steps + 1, *inputs.shape), generator=generator", contracts=[OFF], name="offline: one bin too few (one row too few)"),
+]
+
+
+# ------------------------------------------------------------------------------------------------------------------
+# offline REFRACTORY encoder, whole raster: any two spikes of one element are at least refrac/dt steps apart.
+#   cumsum   S(t): uninterpreted prefix sum; after the solver has proved "every interval >= rho" at a fresh index, the
+#            instances  w1 <= w2 => S(w2) - S(w1) >= (w2 - w1) * rho  of lean/ClosedForms.lean prefix_sum_gap are available
+#   scatter_ R(k) => some bin w(k) has index k (Skolem witness), as for the Poisson-interval encoder
+@contract(P, "homogeneous_poisson_exp_interval[any two spikes of an element, any number of steps]", [(EN, "homogeneous_poisson_exp_interval")], min_obligations=4)
+def refractory_offline_raster(c):
+    f_hz = c.pw("f_hz", eshape=tz.Shape((3,)))
+    dt = c.real("dt")
+    steps = c.int("steps")
+    rmode = c.choice("refrac", ["none", "value"])
+    comp = c.choice("compensate", [True, False])
+    c.require(f_hz.f > 0, dt > 0, steps >= 1)
+    rho_i = c.int("refractory_period_in_whole_steps")
+    c.require(rho_i >= 0)
+    rho = z3.ToReal(rho_i.z) if rmode == "value" else z3.RealVal(1)
+    refrac = SV(rho * dt.z) if rmode == "value" else None  # refrac / step_time cancels to rho: the VCs stay linear in rho
+    if comp:
+        c.require(f_hz.f * rho * dt.z < 1000)  # the encoder module's own validity test: f * refrac < 1000
+    I_, R_ = z3.IntSort(), z3.RealSort()
+    XI, PS = z3.Function("exp_draw", I_, R_), z3.Function("prefix_sum", I_, R_)
+    W, ROW = z3.Function("scatter_witness", I_, I_), z3.Function("row_written", I_, z3.BoolSort())
+    info, gens = {}, []
+    saved = {k: getattr(T, k, None) for k in ("exponential_", "cumsum", "scatter_")}
+
+    def exponential_(self_t, lambd=1.0, generator=None):
+        gens.append(generator)
+        if self_t.tlen is None:
+            raise Unsupported("the draw tensor should carry the bin axis")
+        return T(lambda t: z3.If(XI(t) >= 0, XI(t), -XI(t)), "float", self_t.tlen, "first", self_t.eshape)
+
+    def cumsum(self_t, dim=0):
+        if self_t.tlen is None or self_t.taxis != "first" or _concrete_int(dim) != 0:
+            raise Unsupported("cumsum other than along the leading bin axis")
+        t0 = z3.Int(cur().fresh_name("t_interval"))
+        info["every_interval_at_least_rho"] = cur().implied(z3.Implies(t0 >= 0, tz.coerce(self_t.f(t0), "float") >= rho))
+        info["bins"] = num(self_t.tlen)
+        return T(lambda t: PS(t), "float", self_t.tlen, "first", self_t.eshape)
+
+    def scatter_(self_t, dim, index, src):
+        if self_t.tlen is None or index.tlen is None or _concrete_int(dim) != 0:
+            raise Unsupported("scatter_ other than along the leading axis")
+        idx = index.f
+        info["index"], info["rows"] = idx, num(self_t.tlen)
+
+        def rowf(k):
+            c.axiom(z3.Implies(ROW(k), z3.And(W(k) >= 0, W(k) < num(index.tlen), tz.coerce(idx(W(k)), "int") == k)))
+            return ROW(k)
+
+        return T(rowf, "bool", self_t.tlen, "first", self_t.eshape)
+
+    T.exponential_, T.cumsum, T.scatter_ = exponential_, cumsum, scatter_
+    try:
+        out = c.outcome(c.function(EN, "homogeneous_poisson_exp_interval"), f_hz, steps, dt, refrac=refrac, compensate=comp, generator="<the generator>")
+    finally:
+        for k_, v in saved.items():
+            if v is None:
+                delattr(T, k_)
+            else:
+                setattr(T, k_, v)
+    c.expect_return(out)
+    r = out.value
+    c.ensure("draws_use_the_given_generator", len(gens) == 1 and gens[0] == "<the generator>")
+    c.ensure("every_interval_is_at_least_the_refractory_period", bool(info.get("every_interval_at_least_rho")))
+    c.ensure("one_extra_row_for_clamped_times", info.get("rows") is not None and info["rows"] == steps.z + 1)
+    c.ensure("boolean_time_first_with_steps_rows", z3.And(r.dtype == "bool" and r.tlen is not None and r.taxis == "first", num(r.tlen) == steps.z))
+    k1, k2 = c.int("earlier_spike_step"), c.int("later_spike_step")
+    c.require(0 <= k1, k1 < k2, k2 < steps)
+    both = z3.And(r.f(k1.z), r.f(k2.z))
+    if info.get("every_interval_at_least_rho"):
+        w1, w2 = W(k1.z), W(k2.z)
+        # instances of prefix_sum_gap (both orders) at the two witnesses
+        c.axiom(z3.Implies(w1 <= w2, PS(w2) - PS(w1) >= z3.ToReal(w2 - w1) * rho))
+        c.axiom(z3.Implies(w2 <= w1, PS(w1) - PS(w2) >= z3.ToReal(w1 - w2) * rho))
+        # and of its corollary prefix_sum_lower (S 0 = x 0 >= rho): cumulative times are never negative
+        c.axiom(z3.Implies(w1 >= 0, PS(w1) >= z3.ToReal(w1 + 1) * rho))
+        c.axiom(z3.Implies(w2 >= 0, PS(w2) >= z3.ToReal(w2 + 1) * rho))
+    c.ensure("two_spikes_of_an_element_are_at_least_the_refractory_period_apart", z3.Implies(both, z3.ToReal(k2.z - k1.z) >= rho))
+    c.canary("canary_never_two_spikes", z3.Not(both))
+    c.canary("canary_gap_larger_than_the_period", z3.Implies(both, z3.ToReal(k2.z - k1.z) >= rho + 1))
+
+
+RAST = "homogeneous_poisson_exp_interval[any two spikes of an element, any number of steps]"
+MUTANTS += [
+    dict(file=EN, func="homogeneous_poisson_exp_interval", old="            * res\n            + refrac\n        )", new="            * res\n        )", contracts=[RAST], name="offline raster: intervals without the refractory offset"),
+    dict(file=EN, func="homogeneous_poisson_exp_interval", old="        res = res.clamp_max_(steps).long()", new="        res = res.clamp_max_(steps - 1).long()", contracts=[RAST], name="offline raster: times beyond the train land in the last real row instead of the discarded one"),
+    dict(file=EN, func="homogeneous_poisson_exp_interval", old="        res = res.new_zeros(steps + 1, *inputs.shape, dtype=torch.bool).scatter_(", new="        res = res.new_zeros(steps + 2, *inputs.shape, dtype=torch.bool).scatter_(", contracts=[RAST], name="offline raster: one row too many"),
 ]
